@@ -189,15 +189,15 @@ class Angle(Sort):
 
     shape = (1, 1)
 
-    def __init__(self, name, k=1, lo=-3.0, hi=3.0, cos_positive=False):
-        """cos_positive: requires the base angle in (-pi/2, pi/2) (cos > 0)"""
-        self.name, self.k, self.lo, self.hi, self.cos_positive = name, k, lo, hi, cos_positive
+    def __init__(self, name, k=1, lo=-3.0, hi=3.0, cos_positive=False, cos_nonneg=False):
+        """cos_positive: requires the base angle in (-pi/2, pi/2) (cos > 0); cos_nonneg: in [-pi/2, pi/2] (cos >= 0)"""
+        self.name, self.k, self.lo, self.hi, self.cos_positive, self.cos_nonneg = name, k, lo, hi, cos_positive, cos_nonneg
 
     def bind(self, low):
         R = low.R
         phi = R.gen(f"phi_{self.name}")
         s = R.gen(f"s_{self.name}")
-        c = R.gen(f"c_{self.name}", nonneg=self.cos_positive)
+        c = R.gen(f"c_{self.name}", nonneg=self.cos_positive or self.cos_nonneg)
         if self.cos_positive:
             R.positive = getattr(R, "positive", set())
             R.positive.add(R.index[f"c_{self.name}"])
